@@ -89,7 +89,7 @@ def check(V, prop, tier):
         open(os.path.join(fe, ".cargo/config.toml"), "w").write(V.RUSTFLAGS_CFG % os.path.join(scratch, "target"))
         shutil.copy(os.path.join(V.ENGINE, "Cargo.lock"), os.path.join(fe, "Cargo.lock"))
         t0 = time.time()
-        b = subprocess.run(["cargo", "build", "--offline", "-q"], cwd=fe, env=V.env(), stdout=subprocess.PIPE, stderr=subprocess.PIPE, text=True)
+        b = subprocess.run(["cargo", "build", "--offline", "-q"], cwd=fe, env=V.env(os.path.join(scratch, "target")), stdout=subprocess.PIPE, stderr=subprocess.PIPE, text=True)
         febin = os.path.join(scratch, "target/debug/fe")
         nontrivial = 0
         samples = []
